@@ -1329,3 +1329,28 @@ def run(chk):
             capt_control = w0 in mwords and regs.witness(w0) is not None and month_abbreviates(cul, w0) is not None
     chk.control('C06.capturable', capt_control)
     chk.exhaustive = False
+
+
+
+# ---------------------------------------------------------------------------------------------------------------
+# generic rules (lead): cross-cutting necessary conditions scoped to the modules this property is anchored in
+# (sa/generic.py: filter predicates depend on their element; regex group names read by the code exist)
+
+def _generic_rules(chk):
+    import re as _re_
+    from ..index import get_index as _gi
+    from ..consteval import Resources as _Res
+    from .. import generic as _g
+    idx_ = _gi()
+    scope = _re_.compile('^(base_)?date(_(?!time|period)|$)')
+    flt = lambda name: bool(scope.search(name.rsplit('.', 1)[-1]))
+    _g.rule_group_names(chk, idx_, _Res(idx_), 'C06.groups', 'recognizers_date_time', flt, floor=3)
+    _g.rule_filter_predicates(chk, idx_, 'C06.filters', 'recognizers_date_time', floor=10)
+
+
+_run_before_generic = run
+
+
+def run(chk):       # noqa: F811
+    _run_before_generic(chk)
+    _generic_rules(chk)
